@@ -23,7 +23,7 @@ TITLE = "Options that are optimizations never change results"
 RULE = ("Hypothesis draws a type program (incl. std converted types and serialized methods), the remaining options (aliaser, additional_properties, fall_back_on_default; "
         "exclude_none / exclude_defaults for serialization), 3-6 data (valid, mutants, atoms) and 2-4 typed values.  "
         "Deserialization variants: no_copy x settings.deserialization.override_dataclass_constructors x {deserialize, "
-        "deserialization_method} x pass_through in {(), (a generated class,)}: all must return canon-equal values or "
+        "deserialization_method} x pass_through in {(), (a generated class + the converted standard classes the program uses)}: all must return canon-equal values or "
         "ValidationErrors with equal .errors; with no_copy=False the result shares no mutable container (by id) with the input, "
         "with any variant the input snapshot is unchanged.  Serialization variants: no_copy x check_type x {serialize, "
         "serialization_method} x 8 sampled PassThroughOptions (any, collections, dataclasses, enums, tuple, types): after "
@@ -110,18 +110,23 @@ def _deser(case, ctx, b, prog, opts):
     except Exception:
         classes = []
     nt = mixes(classes)
+    import datetime, decimal, ipaddress, pathlib, uuid
+    std_map = {"uuid": uuid.UUID, "date": datetime.date, "datetime": datetime.datetime, "time": datetime.time, "decimal": decimal.Decimal,
+               "bytes": bytes, "path": pathlib.PurePath, "ipv4": ipaddress.IPv4Address}
+    src_json = json.dumps(prog)
+    std_classes = [c for k_, c in std_map.items() if f'"t": "{k_}"' in src_json]
     for item in case["data"]:
         d = item["d"]
         ctx.count()
         single = {"prog": prog, "opts": opts, "data": [item], "values": [], "pt": case["pt"]}
         ref = None
         for no_copy, override, use_method, pt in itertools.product((True, False), (False, True), (False, True), (False, True)):
-            if pt and first_cls is None:
+            if pt and first_cls is None and not std_classes:
                 continue
             apischema.settings.deserialization.override_dataclass_constructors = override
             kw = dict(base_kw, no_copy=no_copy)
-            if pt:
-                kw["pass_through"] = (first_cls,)
+            if pt:  # pass-through of a generated class and of the converted standard classes used by the program
+                kw["pass_through"] = tuple(([first_cls] if first_cls is not None else []) + std_classes)
             inp = copy.deepcopy(d)
             snap = hostile.snapshot(inp)
             if use_method:
